@@ -391,19 +391,21 @@ def sep_inside_step(inner: int, open_kind: int, tok: int, ch: str) -> bool:
 
 
 def replay_sep_inside(inner, open_kind, tok, ch):
-    """the token must behave like ordinary text: the tree has the same shape as for the same document with `QQ` in its place"""
+    """the token must behave like ordinary text: the tree (node kinds, string lengths) equals that of the same document with Q.. in its place"""
     w = Wtp(quiet=True, quiet_output=True)
     token = ["!!", "!", "||"][tok]
     opener, closer = {"HTML": ("<span>", "</span>"), "LINK": ("[[", "]]"), "TEMPLATE": ("{{", "}}"), "URL": ("[http://e.org ", "]")}[INNER_KINDS[inner]]
     lead = "! " if open_kind == 2 else "| "
 
-    def shape(n):
-        return (n.kind.name, [shape(c) for c in n.children if isinstance(c, WikiNode)], [[shape(c) for c in a if isinstance(c, WikiNode)] for a in n.largs])
+    def shape(n, t):
+        # strings by length only: the neutral text has the length of the token
+        f = lambda c: shape(c, t) if isinstance(c, WikiNode) else len(c)  # noqa: E731
+        return (n.kind.name, [f(c) for c in n.children], [[f(c) for c in a] for a in n.largs])
 
     docs = []
-    for t in (token, "QQ"):
+    for t in (token, "Q" * len(token)):
         doc = "{|\n|-\n" + lead + "a" + opener + "x" + ch + t + "b" + closer + "z\n|}"
         w.start_page("T")
-        docs.append((doc, shape(w.parse(doc))))
+        docs.append((doc, shape(w.parse(doc), t)))
     bad = docs[0][1] != docs[1][1]
     return ("parse(" + repr(docs[0][0]) + ")", bad, f"a cell separator inside an open {INNER_KINDS[inner]} construct is not treated as text: tree {docs[0][1]}, with plain text in its place {docs[1][1]}")
